@@ -83,38 +83,43 @@ STEP_PRELUDE = """
 """ % {"L": STEP_LOG}
 
 
-def gen_step(tier):
-    """Interpreter::step(0, n) on a plan of 1-3 probe functions that log their solve() calls: the call sequence is the plan in order,
-    n times over, and equals the sequence of n requests for one step"""
-    L = STEP_LOG
+def gen_step(tier, LEN=3, NMAX=2):
+    """Interpreter::step(0, n) on a plan of LEN probe functions that log their solve() calls: the call sequence is the plan in order,
+    n times over, and equals the sequence of n requests for one step.  Every `fxn.solve()` in step() is a dyn call over all
+    MechFunction implementors of the crate, and symbolic execution unrolls both loops of step() to the unwind bound whatever n is:
+    plan length concrete, n <= NMAX, no loops in the harness itself (unwind = max(LEN, NMAX) + 2)."""
+    L = LEN * NMAX
+    assert L <= STEP_LOG
     init = interpreter_initializer()
-    b = ["let len: usize = kani::any(); kani::assume(len >= 1 && len <= 3);",
-         "let n: u64 = kani::any(); kani::assume(n <= 3);",
-         "let log = Ref::new([0u8; %d]); let pos = Ref::new(0usize);" % L,
-         "let state = ProgramState::new();",
-         "{ let mut j = 0; while j < len { state.plan.borrow_mut().push(Box::new(VpProbe { id: (j + 1) as u8, log: log.clone(), pos: pos.clone() })); j += 1; } }",
-         "let id: u64 = 0;",
-         "let mut it = %s;" % init,
-         "let r = it.step(0, n);",
-         "match r { Ok(v) => { forget(v); }, Err(e) => { forget(e); assert!(false, \"VP:step-rejected\"); } }",
-         "let first: [u8; %d] = *log.borrow(); let calls = *pos.borrow();" % L,
-         "assert!(calls == (n as usize) * len, \"VP:second-solve-differs:number-of-solve-calls\");",
-         "{ let mut k = 0; while k < %d { if k < calls { assert!(first[k] as usize == (k %% len) + 1, \"VP:second-solve-differs:plan-not-run-in-order-once-per-step\"); } k += 1; } }" % L,
-         "kani::cover!(n == 3 && len == 3, \"VP:reached-3x3\");",
-         "// n requests for one step",
-         "{ *log.borrow_mut() = [0u8; %d]; *pos.borrow_mut() = 0; }" % L,
-         "{ let mut q = 0; while q < n { match it.step(0, 1) { Ok(v) => { forget(v); }, Err(e) => { forget(e); assert!(false, \"VP:step-rejected\"); } } q += 1; } }",
-         "let second: [u8; %d] = *log.borrow();" % L,
-         "assert!(*pos.borrow() == calls, \"VP:second-solve-differs:n-single-steps-vs-one-request\");",
-         "{ let mut k = 0; while k < %d { assert!(first[k] == second[k], \"VP:second-solve-differs:n-single-steps-vs-one-request\"); k += 1; } }" % L,
-         "kani::cover!(true, \"VP:reached\");",
-         "forget(it);"]
+    b = ["let n: u64 = kani::any(); kani::assume(n <= %d);" % NMAX,
+         "let log = Ref::new([0u8; %d]); let pos = Ref::new(0usize);" % STEP_LOG,
+         "let state = ProgramState::new();"]
+    for j_ in range(LEN):
+        b.append("state.plan.borrow_mut().push(Box::new(VpProbe { id: %d, log: log.clone(), pos: pos.clone() }));" % (j_ + 1))
+    b += ["let id: u64 = 0;",
+          "let mut it = %s;" % init,
+          "let r = it.step(0, n);",
+          "match r { Ok(v) => { forget(v); }, Err(e) => { forget(e); assert!(false, \"VP:step-rejected\"); } }",
+          "let first: [u8; %d] = *log.borrow(); let calls = *pos.borrow();" % STEP_LOG,
+          "assert!(calls == (n as usize) * %d, \"VP:second-solve-differs:number-of-solve-calls\");" % LEN]
+    for k in range(L):
+        b.append("if %d < calls { assert!(first[%d] == %d, \"VP:second-solve-differs:plan-not-run-in-order-once-per-step\"); }" % (k, k, (k % LEN) + 1))
+    b += ["kani::cover!(n == %d, \"VP:reached-max-steps\");" % NMAX,
+          "// n requests for one step",
+          "{ *log.borrow_mut() = [0u8; %d]; *pos.borrow_mut() = 0; }" % STEP_LOG]
+    for q in range(NMAX):
+        b.append("if %d < n { match it.step(0, 1) { Ok(v) => { forget(v); }, Err(e) => { forget(e); assert!(false, \"VP:step-rejected\"); } } }" % q)
+    b += ["let second: [u8; %d] = *log.borrow();" % STEP_LOG,
+          "assert!(*pos.borrow() == calls, \"VP:second-solve-differs:n-single-steps-vs-one-request\");",
+          "assert!(%s, \"VP:second-solve-differs:n-single-steps-vs-one-request\");" % " && ".join("first[%d] == second[%d]" % (k, k) for k in range(L)),
+          "kani::cover!(true, \"VP:reached\");",
+          "forget(it);"]
     h = H("c19_step_loop", "    " + "\n    ".join(b), STEP_WHERE, domain="accept", key="Interpreter::step/loop",
-          desc="Interpreter::step(0, n) over a plan of 1-3 logging probe functions, n <= 3 symbolic: every plan function is solved once per step, in "
-               "plan order, and n requests for one step produce the same sequence of solve() calls as one request for n steps",
+          desc="Interpreter::step(0, n) over a plan of %d logging probe functions, n <= %d symbolic: every plan function is solved once per step, in "
+               "plan order, and n requests for one step produce the same sequence of solve() calls as one request for n steps" % (LEN, NMAX),
           functions=["Interpreter::step (src/interpreter/src/interpreter.rs), step_id == 0 path, profile = false, trace = false", "ProgramState::new", "Plan"],
-          bounds="plan length 1..3, n 0..3; plan functions are probes that log their calls (the equality of call sequences carries over to any functions)",
-          unwind=L + 2, tier=tier, assumptions=["profile == false and trace == false (the profiling path reads the clock and prints)"])
+          bounds="plan length %d, n 0..%d; plan functions are probes that log their calls (the equality of call sequences carries over to any functions)" % (LEN, NMAX),
+          unwind=max(LEN, NMAX) + 2, tier=tier, assumptions=["profile == false and trace == false (the profiling path reads the clock and prints)"])
     # RandomState::new -> fixed keys: the empty hash maps of ProgramState / Interpreter are only constructed, never probed
     h.attrs = ["#[kani::stub(::std::time::Instant::now, vp_instant_now)]", "#[kani::stub(::std::time::Instant::elapsed, vp_instant_elapsed)]",
                "#[kani::stub(::std::hash::RandomState::new, vp_random_state)]"]
